@@ -171,10 +171,11 @@ func RuleTransport(r *Report, p *Program, rules aspectSet) {
 		"T9":  "a connection never escapes the call that opened it (not stored, sent or returned)",
 		"T10": "slices returned to the caller are views of buffers allocated inside that call",
 		"A2d": "each driver send method writes the request exactly once per call",
+		"RQ":  "a driver method only reads the request bytes it is given: it never stores into them, appends to (a prefix of) them, copies into them or hands them to a read, so the bytes on the wire are the bytes that were marshalled",
 		"T12": "a socket bound to an ephemeral port (bind port 0) is opened without an address-reuse option hook: with SO_REUSEADDR/SO_REUSEPORT the kernel may give two concurrently open sockets the same local port, and connected to the same controller they share a 4-tuple, so one call receives the other's reply",
 		"T11": "the reply a driver method returns is exactly the bytes of its last read: buffer[0:n] with n the count that read returned, from a buffer large enough to expose over-long datagrams",
 	}
-	mins := map[string]int{"T1": 5, "T2": 3, "T3": 4, "T4": 4, "T5": 4, "T6": 4, "T9": 5, "T10": 3, "A2d": 4, "T11": 3, "T12": 2}
+	mins := map[string]int{"RQ": 4, "T1": 5, "T2": 3, "T3": 4, "T4": 4, "T5": 4, "T6": 4, "T9": 5, "T10": 3, "A2d": 4, "T11": 3, "T12": 2}
 	for id := range rules {
 		if d, ok := doc[id]; ok {
 			r.Rule(id, d, mins[id])
@@ -185,6 +186,7 @@ func RuleTransport(r *Report, p *Program, rules aspectSet) {
 		t1, t2, t3, t4, t5, t6, t9, t10, a2 := "", "", "", "", "", "", "", "", ""
 		t11 := ""
 		t12 := ""
+		rq := ""
 		lockedPaths, unlockedPaths := 0, 0
 		for _, pa := range sf.Paths {
 			if pa.Outcome != "return" && pa.Outcome != "truncated" {
@@ -411,6 +413,24 @@ func RuleTransport(r *Report, p *Program, rules aspectSet) {
 					t11 = "the returned reply is not buffer[0:n] of the last read: " + cut(res.String(), 100)
 				}
 			}
+			// ---- RQ the request is read-only
+			for _, e := range pa.Events {
+				target := ""
+				switch {
+				case e.Kind == "store" && len(e.Args) > 0:
+					target = e.Args[0].String()
+				case e.Kind == "append" && len(e.Args) > 0:
+					target = e.Args[0].String()
+				case e.Kind == "copy" && len(e.Args) > 0:
+					target = e.Args[0].String()
+				case isReadCall(e) && len(e.Args) > 1:
+					target = e.Args[1].String()
+				}
+				target = strings.TrimPrefix(target, "&")
+				if target == "request" || strings.HasPrefix(target, "request[") || strings.HasPrefix(target, "request.") {
+					rq = "the request bytes are modified (" + e.Kind + " at " + p.Pos(e.Pos) + "): what goes on the wire is no longer what was marshalled"
+				}
+			}
 			// ---- T9 ownership, T10 buffers
 			for _, e := range pa.Events {
 				if (e.Kind == "store" || e.Kind == "send" || e.Kind == "mapupdate") && len(e.Args) > 1 && strings.Contains(e.Args[len(e.Args)-1].String(), conn) {
@@ -487,7 +507,7 @@ func RuleTransport(r *Report, p *Program, rules aspectSet) {
 			if rule == "T11" && returnsList(sf.Fn) {
 				return
 			}
-			if sf.Listen && (rule == "T2" || rule == "T3" || rule == "T4" || rule == "T5" || rule == "T6" || rule == "T10" || rule == "A2d" || rule == "T11") {
+			if sf.Listen && (rule == "RQ" || rule == "T2" || rule == "T3" || rule == "T4" || rule == "T5" || rule == "T6" || rule == "T10" || rule == "A2d" || rule == "T11") {
 				return
 			}
 			r.Check(bad == "", rule, sf.Name, pos, fmt.Sprintf("%d paths (%d loop-bounded)", len(sf.Paths), sf.Trunc), bad)
@@ -502,6 +522,7 @@ func RuleTransport(r *Report, p *Program, rules aspectSet) {
 		emit("T10", t10)
 		emit("A2d", a2)
 		emit("T11", t11)
+		emit("RQ", rq)
 		if sf.IsDial {
 			emit("T12", t12)
 		}
@@ -788,6 +809,7 @@ func heldMutexesRel(fn *ssa.Function, at ssa.Instruction, target ssa.Value) map[
 		idx  int
 	}
 	var evs []ev
+	var deferredUnlocks []string
 	atIdx := -1
 	for i, in := range blk.Instrs {
 		if in == at {
@@ -801,6 +823,14 @@ func heldMutexesRel(fn *ssa.Function, at ssa.Instruction, target ssa.Value) map[
 		for i, in := range b.Instrs {
 			if b == blk && i >= atIdx {
 				break
+			}
+			if _, ok := in.(*ssa.RunDefers); ok {
+				// the deferred unlocks run here: what follows (the copy of named results to the caller) is no
+				// longer under those mutexes
+				for _, m := range deferredUnlocks {
+					evs = append(evs, ev{false, m, b, i})
+				}
+				continue
 			}
 			var cc *ssa.CallCommon
 			deferred := false
@@ -825,6 +855,8 @@ func heldMutexesRel(fn *ssa.Function, at ssa.Instruction, target ssa.Value) map[
 			case "Unlock", "RUnlock":
 				if !deferred {
 					evs = append(evs, ev{false, m, b, i})
+				} else {
+					deferredUnlocks = append(deferredUnlocks, m)
 				}
 			}
 		}
